@@ -13,6 +13,7 @@ import (
 	"os"
 	"path/filepath"
 	"sort"
+	"strconv"
 	"strings"
 	"unicode/utf8"
 
@@ -1137,6 +1138,33 @@ func (g *G) fmapStringOps(i int, r *ty.Ty) {
 		}
 		g.stat("fmaps-string:"+classify(s), 1)
 		g.ow.op("fmaps", tn, sv(s).Wire(), (&ty.Val{K: ty.VSlice, Addr: g.vg.Fresh(), Elems: rs}).Wire())
+	}
+	// the string handed over as an UNTYPED CONSTANT (a named constant and a literal), under derive names that are
+	// never called with a string variable: the plugin sees `untyped string` for the second argument
+	lq, lqn := g.qs[(qi+1)%len(g.qs)], fmt.Sprintf("q%d", (qi+1)%len(g.qs)) // a package without another fmap over (func(rune) R, string)
+	for k, lit := range []string{`h\u00e9\u20ac\U0001f600\xff\xc0!`, `a\x80`} {
+		if len(g.qs) < 2 {
+			break
+		}
+		s, err := strconv.Unquote(`"` + lit + `"`)
+		if err != nil {
+			panic(err)
+		}
+		ln := fmt.Sprintf("GL%d_%d", i, k)
+		fmt.Fprintf(g.prelude, "ty %s %s\n", ln, r.Wire())
+		if k == 0 {
+			fmt.Fprintf(lq, "\nconst fmapLit_%d = \"%s\"\n\nfunc FmapLit_%d_%d(f func(rune) %s, _ string) []%s { return deriveFmapL%d(f, fmapLit_%d) }\n", i, lit, i, k, gr, gr, i, i)
+		} else {
+			fmt.Fprintf(lq, "\nfunc FmapLit_%d_%d(f func(rune) %s, _ string) []%s { return deriveFmapL%d(f, \"%s\") }\n", i, k, gr, gr, i, lit)
+		}
+		fmt.Fprintf(g.m, "\trt.Reg(\"fmaps\", %q, rt.FmapS(%s.FmapLit_%d_%d))\n", ln, lqn, i, k)
+		n := len([]rune(s))
+		rs := make([]*ty.Val, n)
+		for j := range rs {
+			rs[j] = g.vg.Inst(rpool[g.rng.Intn(len(rpool))])
+		}
+		g.stat("fmaps-string:untyped-constant", 1)
+		g.ow.op("fmaps", ln, sv(s).Wire(), (&ty.Val{K: ty.VSlice, Addr: g.vg.Fresh(), Elems: rs}).Wire())
 	}
 }
 
